@@ -26,9 +26,19 @@ func tool(args []string) {
 			os.Exit(2)
 		}
 		resets, _ := strconv.Atoi(args[5])
-		g := curatedLex()[idx]
+		g := append(curatedLex(), kfLex()...)[idx]
 		cs := &LexCase{G: g, Text: g.render(), Abs: g.abstract()}
 		r := Replay{Property: args[1], Kind: "lex", What: "", Data: lexReplayData(cs, []byte(in), resets, args[4] == "1")}
+		b, _ := json.MarshalIndent(r, "", " ")
+		fmt.Println(string(b))
+	case "synreplay":
+		// verif tool synreplay <property> <kf index> <tokens as JSON list of abstract terminals>
+		idx, _ := strconv.Atoi(args[2])
+		g := kfSyn()[idx]
+		var toks []int
+		json.Unmarshal([]byte(args[3]), &toks)
+		cs := &SynCase{G: g, Text: g.render(), Abs: g.abstract()}
+		r := Replay{Property: args[1], Kind: "syn", Data: synReplayData(cs, []synInput{{Toks: toks}})}
 		b, _ := json.MarshalIndent(r, "", " ")
 		fmt.Println(string(b))
 	case "synjson":
